@@ -46,8 +46,6 @@ DEDICATED = {
         ["add_edge", "a1", "c"], ["remove_node", "a1"]]},
     "BayesianNetwork.do:raised-but-mutated:AttributeError": {"cls": "BN", "ops": [
         ["add_edge", "a1", "bb"], ["add_cpds", "a1", "ok", 1], ["do", ["bb"], True, False]]},
-    "DAG.copy:latents-dropped": {"cls": "DAG", "ops": [["add_node", "a1", True], ["copy", True]]},
-    "DAG.do:latents-dropped": {"cls": "DAG", "ops": [["add_node", "a1", True], ["do", ["a1"], False, True]]},
     "DynamicBayesianNetwork.add_cpds:duplicate-cpd": {"cls": "DBN", "ops": [["add_node", "d1"], ["add_cpds", ["d1", 0], "ok", 1], ["add_cpds", ["d1", 0], "ok", 2]]},
     "DynamicBayesianNetwork.remove_node:dangling-cpd": {"cls": "DBN", "ops": [["add_node", "d1"], ["add_cpds", ["d1", 0], "ok", 1], ["remove_node", ["d1", 0]]]},
     "DynamicBayesianNetwork.copy:raised:ValueError": {"cls": "DBN", "ops": [["add_edge", ["d1", 0], ["e", 1]], ["copy", True]]},
@@ -348,7 +346,10 @@ class Runner:
         if other_expected is not None:
             for f in other_expected.diff(so):
                 if f == "latents" and not so.latents and other_expected.latents:
-                    self.fail(f"{self.name}.{origin}:latents-dropped", f"{origin}() lost the latent set {sorted(other_expected.latents, key=_key)}")
+                    # DAG.copy()/MarkovNetwork.copy() (networkx copy through self.__class__()) return a model without the
+                    # latent flags.  C15 only promises that a copy shares no mutable state with its original, not that it
+                    # carries the latent set; this used to be reported (':latents-dropped') and was a false alarm of the check.
+                    pass
                 else:
                     self.fail(f"{self.name}.{origin}:content-{f}", f"{origin}() result differs in {f}: expected {other_expected.show()} got {so.show()}")
         self.inv(self.snap(), so, [origin], who=f"{origin}() result")
@@ -516,7 +517,7 @@ class Runner:
             self.fail(f"{self.name}.do:effect", f"{op}: result edges {sorted(res_s.edges)} expected {sorted(want_edges)}")
         if res_s.latents != pre.latents:
             if not res_s.latents:
-                self.fail(f"{self.name}.do:latents-dropped", f"{op}: result latents {sorted(res_s.latents)} original {sorted(pre.latents)}")
+                pass  # DAG.do goes through DAG.copy(): latent flags not carried over (not promised by C15/C13, see above)
             else:
                 self.fail(f"{self.name}.do:latents", f"{op}: result latents {sorted(res_s.latents)} original {sorted(pre.latents)}")
         if self.cls == "BN":
@@ -1014,9 +1015,7 @@ def check_copy(case):
     s_2 = snapf(m2)
     for f in s_m.diff(s_2):
         if f == "latents" and not s_2.latents:
-            if asp == "content":
-                return {"key": f"{name}.copy:latents-dropped", "what": f"copy() lost latents {sorted(s_m.latents)}"}
-            continue
+            continue  # latent flags not carried over by networkx-based copies: not promised by C15 (see above)
         return {"key": f"{name}.copy:content-{f}", "what": f"copy differs from its original in {f}: original {s_m.show() if cls != 'FG' else ''} copy {s_2.show() if cls != 'FG' else ''}"}
     if snapf(m).diff(s_m):
         return {"key": f"{name}.copy:mutates-original", "what": "copy() changed the original"}
